@@ -633,6 +633,7 @@ fn run_case(case: &Case, scratch: &Path, tally: &mut Tally, seen: &mut std::coll
             signature: f.signature.clone(),
             detail,
             case: json!({"check": "C19", "case": min}),
+            origin: None,
         });
     }
 }
@@ -802,5 +803,5 @@ pub fn run(tier_name: &str, seed: u64) -> i32 {
         }),
         exhaustive: false,
     };
-    report::finish(meta, tally, wall, &|v| replay_all(&v["case"]))
+    report::finish(meta, tally, wall, &|v| replay_all(&v["case"]), &|shard, run| { let _ = (shard, run); None })
 }
